@@ -15,5 +15,6 @@ Cases == { [code |-> Code, syms |-> s, states |-> States(One, s, 1), targetm |->
 GInit == k = 0 /\ syn = << >> /\ seen = {}
 GNext == UNCHANGED vars
 ASSUME ndJsonSerialize(IOEnv.OUT, SetToSeq(Cases))
+ASSUME ndJsonSerialize(IOEnv.OUT_TABLES, << [code |-> Code, k |-> K, genrows |-> GenRows, targetm |-> TargetM] >>)
 ASSUME PrintT(<<"EMITTED", Cardinality(Cases)>>)
 ====
